@@ -598,7 +598,7 @@ func (r *sReq) build(c *vConn) *vMsg {
 		m.IEs = []*vIE{vNodeIDIE(node), vFromIE(ie.NewRecoveryTimeStamp(time.Unix(1600000000+r.TSOff, 0)))}
 	case kHB:
 		m.Type = message.MsgTypeHeartbeatRequest
-		m.IEs = []*vIE{vFromIE(ie.NewRecoveryTimeStamp(time.Unix(1600000000, 0)))}
+		m.IEs = []*vIE{vFromIE(ie.NewRecoveryTimeStamp(time.Unix(1600000000+r.TSOff, 0)))}
 	case kRel:
 		m.Type = message.MsgTypeAssociationReleaseRequest
 		m.IEs = []*vIE{vNodeIDIE(node)}
